@@ -170,7 +170,7 @@ func c07Check(c *Ctx, m map[string]interface{}, path string, pol int, choices []
 
 func c07Run(c *Ctx) {
 	mustBeDefault(c)
-	c.S.Rule = "cases = (Map, path): Maps are all map templates with <= N nodes over keys {a,ab,k} (one key is a prefix of another) (lists <= 3 members, maps <= 3 keys, empty containers, list-in-list for non-indexed paths) with unique leaves, plus a wide family (maps and lists of 16, 31, 32, 33, 40, 63, 64 and 65 members) a family over multi-byte keys (one a byte-prefix of another), a family of Maps that hold a key literally named '*' (a '*' step still selects every entry) and a deep family (four levels a.k.a.k, each a map / one-member list / two-member list of maps, 81 shapes plus heterogeneous variants, every four-step path over {key,key[0],key[1],*}); paths are step sequences of length <= L over {a,ab,k,z,*,a[0..2],ab[0..2],k[0..2]} enumerated per Map by depth-first extension (a prefix denoting nothing is extended by one more step, then abandoned); each case is run under ascending and descending map-iteration order and, for wildcard paths, under every single deviation from the sorted order (E-choice bound 1; bound 2 in thorough on the smaller Maps). Results are retained (last 16) and re-checked slot by slot after every later call. non-trivial = the reference says the path denotes at least one value."
+	c.S.Rule = "cases = (Map, path): Maps are all map templates with <= N nodes over keys {a,ab,k} (one key is a prefix of another) (lists <= 3 members, maps <= 3 keys, empty containers, list-in-list for non-indexed paths) with unique leaves, plus a wide family (maps and lists of 16, 31, 32, 33, 40, 63, 64 and 65 members, each list member holding three cells with a two-member list, incl. paths with two indexed steps separated by a step that yields several parents) a family over multi-byte keys (one a byte-prefix of another), a family of Maps that hold a key literally named '*' (a '*' step still selects every entry) and a deep family (four levels a.k.a.k, each a map / one-member list / two-member list of maps, 81 shapes plus heterogeneous variants, every four-step path over {key,key[0],key[1],*}); paths are step sequences of length <= L over {a,ab,k,z,*,a[0..2],ab[0..2],k[0..2]} enumerated per Map by depth-first extension (a prefix denoting nothing is extended by one more step, then abandoned); each case is run under ascending and descending map-iteration order and, for wildcard paths, under every single deviation from the sorted order (E-choice bound 1; bound 2 in thorough on the smaller Maps). Results are retained (last 16) and re-checked slot by slot after every later call. non-trivial = the reference says the path denotes at least one value."
 	c.S.Assumptions = []string{"reference path semantics written from the documentation (harness/ref_path.go)", "list directly inside a list under a plain key: one-level and recursive readings both accepted"}
 	maxNodes, maxLen, echoiceNodes := 5, 3, 5
 	if c.Thorough {
@@ -281,7 +281,11 @@ func c07Run(c *Ctx) {
 		}
 		wl := make([]interface{}, width)
 		for i := range wl {
-			wl[i] = map[string]interface{}{"x": leaf(), "y": []interface{}{leaf(), leaf()}}
+			cells := make([]interface{}, 3)
+			for j := range cells {
+				cells[j] = map[string]interface{}{"v": []interface{}{leaf(), leaf()}}
+			}
+			wl[i] = map[string]interface{}{"x": leaf(), "y": []interface{}{leaf(), leaf()}, "c": cells}
 		}
 		wl2 := make([]interface{}, width)
 		for i := range wl2 {
@@ -292,7 +296,9 @@ func c07Run(c *Ctx) {
 	// widths around the internal initial result capacity (32) and its first doubling (64)
 	for _, width := range []int{16, 31, 32, 33, 40, 63, 64, 65} {
 		last := strconv.Itoa(width - 1)
-		for _, p := range []string{"m", "m.*", "*", "l", "l.x", "l.y", "l.*", "s", "s.*", "*.*", "d.m.*", "d.l.x", "d.l.y", "d.*.*", "*.l.x", "l[" + last + "].x", "l[" + last + "].y[1]", "l[" + strconv.Itoa(width) + "]", "s[" + last + "]", "s[" + strconv.Itoa(width) + "]", "d.l[" + last + "].x", "d.l.y[1]", "l.y[0]", "m.w" + fmt.Sprintf("%02d", width-1), "*.*.*", "l.z", "d.l[0].y[1]"} {
+		for _, p := range []string{"m", "m.*", "*", "l", "l.x", "l.y", "l.*", "s", "s.*", "*.*", "d.m.*", "d.l.x", "d.l.y", "d.*.*", "*.l.x", "l[" + last + "].x", "l[" + last + "].y[1]", "l[" + strconv.Itoa(width) + "]", "s[" + last + "]", "s[" + strconv.Itoa(width) + "]", "d.l[" + last + "].x", "d.l.y[1]", "l.y[0]", "m.w" + fmt.Sprintf("%02d", width-1), "*.*.*", "l.z", "d.l[0].y[1]",
+			// an indexed step over the wide list, then a plain or wildcard step that yields several parents, then a second indexed step
+			"l[2].c.v[1]", "l[0].c.v[0]", "l[" + last + "].c.v[1]", "d.l[1].c.v[1]", "l[2].*.v[1]", "l[1].c[2].v[0]", "l[1].c.v", "l.c[1].v[1]"} {
 			if !c.Mine() {
 				continue
 			}
